@@ -14,7 +14,7 @@ from . import arrays, sym
 from .arrays import ShapeError
 from .loader import AnalysisError, FunctionInfo, Module, Project
 from .sym import Expr
-from .values import (Opt, Alt, Arr, Bag, Blocks, Concat, DiagMat, DictV, FuncV, ModV, NoneV, ObjV, Sc, Seq, Space, StrV,
+from .values import (is_bucket_family, bucket_root, bucket_handle, bucket_family_like, Opt, Alt, Arr, Bag, Blocks, Concat, DiagMat, DictV, FuncV, ModV, NoneV, ObjV, Sc, Seq, Space, StrV,
                      Unknown, Val, fix, fresh, generic_elem, rng, rows, shape_of, subspace)
 
 
@@ -88,6 +88,7 @@ class Interp:
     def event(self, kind: str, node, **kw):
         fi = self.frames[-1].fi if self.frames else None
         rec = dict(kind=kind, node=node, fi=fi, path=list(self.path), reach=getattr(self, "cur_reach", sym.TRUE), **kw)
+        rec["loops"] = list(getattr(self, "active_loops", ()))
         self.log.append(rec)
         return rec
 
@@ -754,6 +755,11 @@ class Interp:
                     out.append(_rename_val(f_k(), iv_k, iv))
                 return Seq(out, "tuple")
             return best[0], iv, elem
+        if is_bucket_family(it):
+            sp = it.axes[0][0]
+            iv = fresh()
+            self.ivspace[iv] = sp
+            return sp, iv, lambda: bucket_handle(it, sym.IV(iv))
         a = arrays.to_arr(it) if not isinstance(it, Arr) else it
         if isinstance(a, (Blocks, DiagMat)):
             a = arrays.densify(a)
@@ -823,6 +829,15 @@ class Interp:
         carried = [n for n in self._assigned_names(st.body) if n in env]
         is_for = isinstance(st, ast.For)
         loop_rec = self.event("loop", st, space=sp, ivar=iv, carried={}, loop_kind="for" if is_for else "while")
+        if not hasattr(self, "active_loops"):
+            self.active_loops = []
+        self.active_loops.append(loop_rec)
+        try:
+            return self._symbolic_loop_body(st, env, sp, iv, elem, fr, carried, is_for, loop_rec)
+        finally:
+            self.active_loops.pop()
+
+    def _symbolic_loop_body(self, st, env, sp, iv, elem, fr, carried, is_for, loop_rec):
         init = {n: env[n] for n in carried}
         place: Dict[str, Expr] = {}
         cur = dict(env)
@@ -841,6 +856,8 @@ class Interp:
                 cur[n] = Arr(v.axes, ph, "nd", v.uid)
             elif isinstance(v, Seq) and v.kind == "list":
                 cur[n] = _SeqAcc(v.items)
+            elif is_bucket_family(v):
+                pass  # per-position lists: appends and re-bindings of single positions are recorded as events
             elif (isinstance(v, Arr) and v.kind == "list") or isinstance(v, Concat):
                 # a list that an earlier loop filled and this loop keeps appending to
                 acc0 = _SeqAcc([])
@@ -951,6 +968,9 @@ class Interp:
         return env
 
     def _list_from_items(self, item: Val, sp: Space, iv: str) -> Val:
+        if isinstance(item, ObjV) and item.tag == "bucket" and item.attrs["index"] == sym.IV(iv) \
+                and sp.same_size(item.attrs["base"].axes[0][0]):
+            return bucket_family_like(item.attrs["base"], item.attrs.get("order"))
         if isinstance(item, Sc):
             return Arr([(sp, iv)], item.e, "list")
         if isinstance(item, Arr):
@@ -1020,6 +1040,20 @@ class Interp:
                 self.assign(t, x, env, st)
             return
         if isinstance(target, ast.Subscript):
+            inner = target.value
+            if isinstance(inner, ast.Subscript) and not isinstance(inner.slice, (ast.Tuple, ast.Slice)) \
+                    and not isinstance(target.slice, ast.Tuple):
+                # A[i][j] = v on an nd-array: A[i] is a view of row i, so this is A[i, j] = v
+                root = self.eval(inner.value, env)
+                i0 = self.eval(inner.slice, env)
+                if isinstance(root, Arr) and root.kind == "nd" and root.ndim >= 2 and isinstance(i0, Sc) and i0.e is not None \
+                        and i0.e[0] not in ("cmp", "bool", "and", "or", "not"):
+                    t2 = ast.Subscript(value=inner.value, slice=ast.Tuple(elts=[inner.slice, target.slice], ctx=ast.Load()),
+                                       ctx=ast.Store())
+                    ast.copy_location(t2, target)
+                    ast.fix_missing_locations(t2)
+                    self.store_subscript(t2, root, v, env, st)
+                    return
             base = self.eval(target.value, env)
             self.store_subscript(target, base, v, env, st)
             return
@@ -1077,6 +1111,19 @@ class Interp:
                 base.d[key[1]] = v
             else:
                 base.generic = v if base.generic is None else Alt([base.generic, v])
+            return
+        if is_bucket_family(base) and len(idx) == 1 and idx[0][0] in ("expr", "int") and isinstance(v, ObjV) and v.tag == "bucket":
+            pos_e = idx[0][1] if idx[0][0] == "expr" else sym.Num(idx[0][1])
+            loops = getattr(self, "active_loops", [])
+            if v.attrs["root"] is bucket_root(base) and v.attrs["index"] == pos_e and loops and loops[-1]["ivar"] is not None \
+                    and pos_e == sym.IV(loops[-1]["ivar"]) and loops[-1]["space"] is not None \
+                    and loops[-1]["space"].same_size(base.axes[0][0]):
+                # every position is re-bound to its own list in the given order
+                base.bucket_order = v.attrs.get("order")
+                self.event("bucket-reorder", st, base=base, order=v.attrs.get("order"))
+                return
+            self.lose("a per-position list is replaced by another position's list, or only some positions are re-ordered", st)
+            base.bucket_order = "mixed"
             return
         if isinstance(base, (Seq, _SeqAcc)) and len(idx) == 1 and idx[0][0] == "int":
             k = idx[0][1]
@@ -1521,6 +1568,8 @@ class Interp:
             vv = self.eval(n.value, sub)
             dv = DictV({}, generic=vv)
             dv.key_kind = "str" if isinstance(kv, StrV) else "other"
+            if isinstance(kv, Sc) and isinstance(vv, Sc) and kv.e is not None and vv.e is not None and iv is not None:
+                dv.keymap = (kv.e, vv.e, iv, sp)
             self.event("store", n, base=dv, idx=[("str", "<formatted>")] if isinstance(kv, StrV) else [("expr", generic_elem(kv))],
                        value=vv, target=None)
             return dv
@@ -1738,6 +1787,12 @@ class Interp:
             return Alt(outs) if outs else self.unknown("dict-lookup", node)
         if isinstance(base, DictV):
             k = idx[0]
+            km = getattr(base, "keymap", None)
+            if km is not None and k[0] in ("expr", "int") and not base.d:
+                hit = self._keymap_lookup(km, k[1] if k[0] == "expr" else sym.Num(k[1]))
+                if hit is not None:
+                    return Sc(hit)
+                return self.unknown("dict-lookup-key-not-a-table-entry", node)
             if k[0] in ("str", "int") and k[1] in base.d:
                 return base.d[k[1]]
             if base.generic is not None:
@@ -1747,6 +1802,14 @@ class Interp:
             return self.unknown("dict-lookup", node)
         if isinstance(base, _SeqAcc):
             base = Seq(base.items)
+        if is_bucket_family(base) and len(idx) == 1 and idx[0][0] in ("expr", "int"):
+            # one of a list of (initially empty) lists, picked by position: what is appended to it is recorded with the position
+            pos_e = idx[0][1] if idx[0][0] == "expr" else sym.Num(idx[0][1])
+            return bucket_handle(base, pos_e)
+        if isinstance(base, ObjV) and base.tag == "bucket" and len(idx) == 1 and idx[0][0] in ("expr", "int"):
+            k_e = idx[0][1] if idx[0][0] == "expr" else sym.Num(idx[0][1])
+            return Sc(sym.Opq("bucket-item:" + str(base.attrs.get("order")), (base.attrs["index"], k_e),
+                              base.attrs["root"].uid or id(base.attrs["root"])))
         if isinstance(base, ObjV) and base.cls:
             c = self.p.classes.get(base.cls)
             m = c.lookup("__getitem__", self.p) if c else None
@@ -1764,6 +1827,28 @@ class Interp:
         if isinstance(r, Unknown):
             self.unmodelled.append(dict(tag=r.tag, node=node, fi=self.frames[-1].fi if self.frames else None, uid=r.e[3]))
         return r
+
+    def _keymap_lookup(self, km, key: Expr) -> Optional[Expr]:
+        """d = {K(t): V(t) for t in space}; d[key] with key = K(x) for an index-valued sub-expression x of key is V(x)
+        (the table is assumed to have distinct keys: a grid, an enumeration)"""
+        kexpr, vexpr, iv, sp = km
+        cands = [sym.IV(i) for i in sorted(sym.free_ivars(key))]
+        for x in sym.walk(key):
+            if x[0] == "red" and x[1] in ("argmin", "argmax"):
+                cands.append(x)
+            elif x[0] == "opq" and x[1] in ("index", "argmin", "argmax"):
+                cands.append(x)
+            elif x[0] == "fn" and x[1] in ("round", "rint", "floor", "ceil", "int"):
+                cands.append(x)
+        seen = set()
+        for c in cands:
+            if c in seen:
+                continue
+            seen.add(c)
+            k2 = sym.subst_ivar_expr(kexpr, iv, c)
+            if k2 is not None and sym.equal(k2, key):
+                return sym.subst_ivar_expr(vexpr, iv, c)
+        return None
 
     def _idx_val(self, idx) -> Val:
         it = idx[0]
